@@ -424,6 +424,14 @@ def gen_priorized(repo):
             plain.append(src(st))
     if sorted(plain) != sorted(['ns.uuid = s.uuid', 'ns.flags |= flags.PRIORIZED']):
         raise TranslateError(f"_refit_islands: unconditional copy-back statements are {plain}")
+    def _strip_known(t):
+        return t.replace('_known_error(s.err_', '(s.err_').replace('(s.err_ra)', 's.err_ra').replace('(s.err_dec)', 's.err_dec') \
+                .replace('(s.err_a)', 's.err_a').replace('(s.err_b)', 's.err_b').replace('(s.err_pa)', 's.err_pa')
+    forms = {('_known_error(' in t) for c in conds for t in c[1] if t.startswith('ns.err_')}
+    if len(forms) != 1:
+        raise TranslateError(f"_refit_islands: copy-back mixes plain and _known_error copies: {[c[1] for c in conds]}")
+    guarded = forms.pop()
+    conds = [(c[0], [_strip_known(t) for t in c[1]]) for c in conds]
     pos_c = [c for c in conds if 'ns.err_ra = s.err_ra' in c[1]]
     shp_c = [c for c in conds if 'ns.err_a = s.err_a' in c[1]]
     if len(conds) != 2 or len(pos_c) != 1 or len(shp_c) != 1:
@@ -432,6 +440,17 @@ def gen_priorized(repo):
         raise TranslateError(f"_refit_islands: position copy-back is {pos_c[0][1]}")
     if sorted(shp_c[0][1]) != sorted(['ns.err_a = s.err_a', 'ns.err_b = s.err_b', 'ns.err_pa = s.err_pa']):
         raise TranslateError(f"_refit_islands: shape copy-back is {shp_c[0][1]}")
+    if guarded:
+        # _known_error(err): err when positive and finite (every Q is finite), otherwise -1
+        ke = find_func(tree, '_known_error')
+        kb = [x for x in ke.body if not (isinstance(x, ast.Expr) and isinstance(x.value, ast.Constant))]
+        if not ([a.arg for a in ke.args.args] == ['err'] and len(kb) == 2 and isinstance(kb[0], ast.If) and not kb[0].orelse
+                and src(kb[0].test) == 'np.isfinite(err) and err > 0' and [src(x) for x in kb[0].body] == ['return err']
+                and src(kb[1]) == 'return -1'):
+            raise TranslateError(f"_known_error: expected `if np.isfinite(err) and err > 0: return err` / `return -1`, found {[src(x)[:60] for x in kb]}")
+        copied_err = 'if Qltb 0 e then e else -(1 # 1)'
+    else:
+        copied_err = 'e'
     copy_pos = trs.cond(pos_c[0][0])
     copy_shape = trs.cond(shp_c[0][0])
     k_ext = _index_of(rest, lambda s: isinstance(s, ast.Expr) and src(s.value) == 'sources.extend(new_src)',
@@ -571,6 +590,8 @@ Definition vary_theta (stage : Z) : bool := {zb(vary['theta'])}.
 (* copy-back: input uncertainties are kept when this holds; the uuid is always copied *)
 Definition copy_pos_err (stage : Z) : bool := {copy_pos}%Z.
 Definition copy_shape_err (stage : Z) : bool := {copy_shape}%Z.
+(* ... through _known_error: the input value when it is positive (and finite: every Q is), otherwise -1 = unknown *)
+Definition copied_err (e : Q) : Q := {copied_err}.
 Definition flag_PRIORIZED : Z := {fl['PRIORIZED']}%Z.
 Definition flag_FIXED2PSF : Z := {fl['FIXED2PSF']}%Z.
 Definition flag_NOTFIT : Z := {fl['NOTFIT']}%Z.
